@@ -68,6 +68,11 @@ pub struct Prog {
     pub recover_at_meta: bool,
     /// sticky fault by file kind, armed after the setup: (call classes, file-name suffix)
     pub fault: Option<(u32, &'static str)>,
+    /// if set, the fault only hits filesystem calls made by this thread (index into `threads`)
+    pub fault_thread: Option<usize>,
+    /// after the threads have joined: disarm the fault, compact everything, wait for the
+    /// background work to go idle and require the directory to hold exactly the needed files
+    pub final_directory: bool,
 }
 
 pub fn val(id: u16, size: u32) -> Vec<u8> {
@@ -94,6 +99,8 @@ impl Prog {
             "crash_recovery_checked_at_every_file_removal": self.recover_at_removals,
             "crash_recovery_checked_at_every_manifest_write_and_rename": self.recover_at_meta,
             "sticky_fault_after_setup": self.fault.map(|(c, s)| format!("classes {:#x} on *{}", c, s)),
+            "fault_only_hits_thread": self.fault_thread.map(|t| t + 1),
+            "directory_checked_after_final_compaction": self.final_directory,
         })
     }
 }
@@ -307,7 +314,12 @@ fn prog_body(prog: &Prog, log: &Arc<Mutex<Vec<Event>>>, stale: &Arc<AtomicU64>) 
         let ops = ops.clone();
         let keys = prog.keys.clone();
         let log = Arc::clone(log2);
+        let fs2 = fs.clone();
+        let faulty = prog.fault_thread == Some(ti);
         handles.push(shuttle::thread::spawn(move || {
+            if faulty {
+                fs2.state().fail_only_task = shuttle::current::get_current_task().map(usize::from);
+            }
             for op in ops.iter() {
                 exec_op(&db, &keys, ti + 1, op, &log);
             }
@@ -317,10 +329,34 @@ fn prog_body(prog: &Prog, log: &Arc<Mutex<Vec<Event>>>, stale: &Arc<AtomicU64>) 
         let _ = h.join();
     }
     fs.set_fs_switch(false);
+    if prog.final_directory {
+        fs.state().fail_by_suffix = None;
+    }
     // final observation by the main thread
     let all: Vec<u8> = (0..prog.keys.len() as u8).collect();
     exec_op(&db, &prog.keys, 0, &TOp::SnapRead(all), log2);
     stale.store(fs.state().stale_uses, Ordering::SeqCst);
+    if prog.final_directory {
+        db.compact_range(None..None);
+        let probe = db.verif_probe();
+        let mut spins = 0u32;
+        while probe.background_work_pending() {
+            spins += 1;
+            if spins > 100_000 {
+                panic!("harness: background work never went idle after the final compaction");
+            }
+            shuttle::thread::yield_now();
+        }
+        if let Err(v) = crate::world::check_directory(&db, &fs) {
+            log2.lock().unwrap().push(Event {
+                thread: 97,
+                op: TOp::Flush,
+                invoke: u64::MAX - 3,
+                ret: u64::MAX - 2,
+                res: Res::Err(format!("C11 directory after quiescence: {} {}", v.clause, v.detail)),
+            });
+        }
+    }
     match Arc::try_unwrap(db) {
         Ok(db) => drop(db),
         Err(_) => panic!("harness: database handle still shared at the end"),
@@ -537,14 +573,16 @@ pub fn judge(prog: &Prog, out: &Outcome, events: &[Event], stale_uses: u64, atom
         Outcome::StepBound => return Some(("C09.livelock".into(), "step bound exceeded".into())),
         Outcome::Divergence(m) => return Some(("machinery.divergence".into(), m.clone())),
     }
-    if prog.fault.is_some() {
-        // an injected fault makes errors legitimate; what is judged is that every call returned
-        // (no deadlock / panic above)
-        return None;
-    }
     for e in events {
+        // an injected fault makes errors of the calls legitimate; what is judged then is that
+        // every call returned (no deadlock / panic above) and the harness's own final oracles
+        if prog.fault.is_some() && e.thread < 97 {
+            continue;
+        }
         if let Res::Err(m) = &e.res {
-            let clause = if m.starts_with("C11 needed file removed") {
+            let clause = if m.starts_with("C11 directory after quiescence") {
+                "C11.dead_file_kept"
+            } else if m.starts_with("C11 needed file removed") {
                 "C11.needed_file_removed"
             } else if m.starts_with("C02 crash under concurrency") {
                 "C02.concurrent_crash"
@@ -560,6 +598,9 @@ pub fn judge(prog: &Prog, out: &Outcome, events: &[Event], stale_uses: u64, atom
                 format!("T{} {} failed with no fault injected: {}", e.thread, top_str(&e.op, &prog.keys), m),
             ));
         }
+    }
+    if prog.fault.is_some() {
+        return None;
     }
     if stale_uses > 0 {
         return Some(("C11.live_deleted".into(), format!("{} uses of a handle to a removed file", stale_uses)));
